@@ -23,3 +23,32 @@ Theorem c08_expand_template_binds_given_table :
     = map (fun p => (name_key (fst p), strip_by sp_py (snd p))) l.
 Proof. exact expand_template_args. Qed.
 Print Assumptions c08_expand_template_binds_given_table.
+
+(* frame:expandTemplate{title, args} builds the call {{title|k=v|...}} and expands it from inside the Lua callback, i.e.
+   under a longer expansion path [stk] (page, template frames, #invoke, the Lua function, "frame:expandTemplate()").
+   On the flat fragment of C04 (Model/FlatCall.v: plain name and arguments, a template of text and parameter references
+   or no template) the result does not depend on that path: for every path shorter than the depth limit in which the
+   template is not looping, and all sufficiently large fuel, the model gives what the same call gives written on the
+   page, namely the transclusion rule's result. *)
+From WTP Require Import Model.Expand Model.FlatCall Proofs.FlatCallProofs.
+From Coq Require Import Arith.
+Theorem c08_expand_template_is_the_call_on_the_page :
+  forall pfnames lib opts stk name args,
+    (length stk < 100)%nat -> detect_loop (stk ++ [FTemplate name]) = false ->
+    flat_ok pfnames lib name args = true -> o_tfn opts = [] -> o_pfn opts = [] ->
+    exists F, forall fuel, (F <= fuel)%nat ->
+      expand_T pfnames lib opts fuel stk true (chars name :: args)
+      = expand_T pfnames lib opts fuel [FTitle] true (chars name :: args) /\
+      expand_T pfnames lib opts fuel stk true (chars name :: args) = Some (result_of lib name args).
+Proof.
+  intros pfnames lib opts stk name args Hd Hl Hok Ht Hp.
+  destruct (flat_ok_premises pfnames lib name args Hok) as (H1 & H2 & H3 & H4 & H5).
+  exact (flat_call_anywhere pfnames lib opts stk name args Hd Hl H1 H2 H3 H4 Ht Hp H5).
+Qed.
+Print Assumptions c08_expand_template_is_the_call_on_the_page.
+
+(* the premises hold for a real path: {{b|k=v}} expanded from a Lua function invoked on the page *)
+Example c08_a_path :
+  let stk := [FTitle; FFn [35;105;110;118;111;107;101]; FFn [76;117;97]; FFn [102;114;97;109;101]] in
+  (length stk < 100)%nat /\ detect_loop (stk ++ [FTemplate [98]]) = false.
+Proof. split; [cbn; repeat constructor | reflexivity]. Qed.
